@@ -1,10 +1,38 @@
-(* Properties_C18.v — obligations of property C18.  Contains only theorem statements closed by
-   `exact <lemma>` and Print Assumptions. *)
-Require Import ObsRun.
+(* Properties_C18.v — obligations of property C18 (PTY and country lookups are total, bounded
+   and name the right entity).  Every statement is a decidable fact about the COMPLETE graphs of
+   the five lookup functions (all 256 argument values x RDS/RBDS x 3 tables, all 256 country
+   arguments x 2 tables) as measured on the compiled library of the current tree (Gen.v), checked
+   by the kernel.  Only `exact <lemma>` and Print Assumptions below. *)
+Require Import ObsRun Lemmas_Tables.
 Local Open Scope Z_scope.
 
-(* non-vacuity: the observer of C18 is evaluated (and holds) along a run of the model that
-   touches every group kind *)
-Example C18_scenario : check_run_u (observer_u 18) scenario = true.
-Proof. vm_compute. reflexivity. Qed.
-Print Assumptions C18_scenario.
+(* total (no NULL, no embedded NUL), placeholder "Unknown" exactly outside 0..31, and inside the
+   range the display terms of the reference tables — for all six PTY tables *)
+Theorem C18_pty_total_placeholder_reference : pty_all_ok = true.
+Proof. exact pty_tables_are_reference. Qed.
+Print Assumptions C18_pty_total_placeholder_reference.
+
+(* short names fit 8 characters, long names 16, RDS and RBDS *)
+Theorem C18_pty_widths : pty_widths_ok = true.
+Proof. exact pty_widths. Qed.
+Print Assumptions C18_pty_widths.
+
+(* 221 enumerators numbered consecutively; placeholder "Unknown"/"??" exactly for 0 and 221..255 *)
+Theorem C18_country_total_placeholder : country_shape_ok = true.
+Proof. exact country_shape. Qed.
+Print Assumptions C18_country_total_placeholder.
+
+(* for every enumerator IDENTIFIER of the public header, name and ISO 3166-1 code are those of
+   the reference table entry of that identifier (so a reordering of the enum or of one of the two
+   tables alone is caught) *)
+Theorem C18_country_name_iso_reference : country_entries_ok = true.
+Proof. exact country_tables_are_reference. Qed.
+Print Assumptions C18_country_name_iso_reference.
+
+Theorem C18_iso_two_letters : iso_all_format_ok = true.
+Proof. exact iso_format. Qed.
+Print Assumptions C18_iso_two_letters.
+
+Theorem C18_iso_unique : iso_unique_ok = true.
+Proof. exact iso_unique. Qed.
+Print Assumptions C18_iso_unique.
